@@ -9,7 +9,8 @@ namespace ZV.Driver
 def registry : List Obj := [
   pureObj purePow,
   pureObj pureRpc,
-  pureObj pureElection
+  pureObj pureElection,
+  pureObj pureTicker
 ]
 
 end ZV.Driver
